@@ -200,4 +200,17 @@ theorem writeState_eq_git (sha1 : Bytes → Bytes) (s : State) (o : Options)
   by_cases h1 : s.entries.length > 0 <;> by_cases h2 : o.endOfIndexEntry = true <;>
     by_cases h3 : (gitExtensionsOf s o).isEmpty = true <;>
     simp [h1, h2, h3, writeExt, encodeExt, eoiePayload]
+theorem write_file_eq_git_aux (sha1 : Bytes → Bytes) (s : State) (o : Options)
+    (hid : ∀ e ∈ kept s.entries, e.id.length = hashLen) :
+    (writeFile sha1 s o).2 =
+      gitEncodeIndex sha1 (requiredVersion s.entries) [(kept s.entries).map persisted] false
+        (gitExtensionsOf s o) (wantsEoie s o)
+        (if o.skipHash then List.replicate hashLen 0 else sha1 (writeState sha1 s o).2) := by
+  have h := writeState_eq_git sha1 s o hid
+  unfold writeFile
+  simp only []
+  rw [h]
+  unfold gitEncodeIndex
+  simp only [List.append_nil, List.append_assoc]
+
 end GixModel.C25
